@@ -193,7 +193,7 @@ CHECKS = {
               "inputs and results finite, of the session's complex dtype, and within K eps (1+|z|) of the tableau evaluated by mpmath at the z the "
               "session stores), and fine-grid / high-order-dissipation / large-dt instances of real steppers on smooth O(1) states; whole steps are "
               "compared across the two sessions with a bound of 300 eps32 scale log2(size) plus 100x the measured sensitivity of that step."),
-        note="finiteness and rounding magnitude are observed on the specification's ladder, not derived (TLC has no floats); bounds K32=400, K64=4e5 (contour quadrature accuracy) times eps (1+|z|); mpmath; the BaseNonlinearFun-free public ETDRKp interface"),
+        note="finiteness and rounding magnitude are observed on the specification's ladder, not derived (TLC has no floats); bounds K32=1500, K64=5000 (measured worst multiple ~45) times eps (1+|z|); mpmath; the BaseNonlinearFun-free public ETDRKp interface"),
     "C20": dict(
         category="model_checking", design_ref="4/C20", engine="validate",
         technique="TLC decision tables (MC_Validate) replayed into every public class + TLC trace validation (Trace_Validate) of hook-recorded __call__ decisions (own drivers and the repository's tests)",
